@@ -5,6 +5,7 @@ import MoneroModel.Props.C06
 import MoneroModel.Props.C16
 import MoneroModel.Props.C14
 import MoneroModel.Proofs.PanicsProofs
+import MoneroModel.Proofs.ExtraLen
 open Monero Ledger
 /-! # C04 — no input can panic, hang or exhaust memory (PARTIAL: see below)
 
@@ -118,6 +119,16 @@ theorem C04_alloc_released (b : Bytes) :
 /-- nothing stays allocated after a failed decode -/
 theorem C04_alloc_released_on_error (b : Bytes) (h : (rvecTxIn b).val = none) : (rvecTxIn b).live = 0 :=
   bounded_rvecTxIn.live_fail b h
+
+/-- `From<ExtraField> for RawExtraField` is `deserialize(&serialize(&extra)).unwrap()`; in the model `toRaw fs = none` is
+that `unwrap` panicking (the re-serialisation exceeds the allocation cap of the `Vec<u8>` decoder). For an `ExtraField`
+obtained by PARSING a raw extra that respected the cap — whatever the bytes, whether or not parsing reported success — the
+re-serialisation is never longer than the input (every decoded sub-field re-encodes to exactly the bytes it consumed:
+`subFieldRd_len`), so the conversion back to raw bytes cannot panic. -/
+theorem C04_raw_from_parsed_extra_no_panic (vk : Bytes → Bool) (e : Bytes) (hc : e.length ≤ CAP) :
+    (Extra.encFields (Extra.tryParse vk e).fields).length ≤ e.length ∧
+    Extra.toRaw (Extra.tryParse vk e).fields = some (Extra.encFields (Extra.tryParse vk e).fields) :=
+  ⟨Extra.tryParse_len vk e, Extra.toRaw_parsed vk e hc⟩
 
 /-! ## Explicit panic sites (Model/Panics.lean) are unreachable -/
 open Monero.Panics in
